@@ -57,6 +57,20 @@ let handle = function
     "ok\t" ^ plain_list (List.map str_of_coq (model_chain c (kind_of k) (guards g) (List.map coq_of_str (parse_plain_list elems))))
   | ["chainspec"; k; elems; g; obs] ->
     if spec_chain_ok c (kind_of k) (guards g) (List.map coq_of_str (parse_plain_list elems)) (List.map coq_of_str (parse_plain_list obs)) then "ok" else "bad"
+  | ["exec"; chain; fmt; n; g] ->
+    (* snoopy_action_log_syscall_exec with filter_chain = chain ("e1;e2:a;..."), message_format = "m:%{d1}%{d2:a}...", output = n *)
+    "ok\t" ^ plain_list (List.map str_of_coq (model_exec c (guards g) (List.map coq_of_str (parse_plain_list chain))
+                                                (List.map coq_of_str (parse_plain_list fmt)) (coq_of_str (unhex n))))
+  | ["execspec"; chain; fmt; n; g; obs] ->
+    if spec_exec_ok c (guards g) (List.map coq_of_str (parse_plain_list chain)) (List.map coq_of_str (parse_plain_list fmt))
+         (coq_of_str (unhex n)) (List.map coq_of_str (parse_plain_list obs)) then "ok" else "bad"
+  | ["threads"; "ds"; pairs; g] ->
+    (* one thread per name formats %{name:a-name} over and over: every call must run that name's own data source *)
+    let bad = List.filter (fun pr -> match String.index_opt pr '=' with
+        | None -> true
+        | Some i -> let n = String.sub pr 0 i and sym = String.sub pr (i+1) (String.length pr - i - 1) in
+          (match model_thread_expect c (guards g) (coq_of_str n) with Some p -> str_of_coq p <> sym | None -> true)) (parse_plain_list pairs) in
+    (match bad with [] -> "ok\t0\t-" | b :: _ -> "ok\tmodel-disagrees:" ^ b ^ "\t-")
   | ["byid"; k; i; g] ->
     let k = kind_of k and g = guards g and i = z_of_int (int_of_string i) in
     let nm = (match model_get_name c k g i with Some (Some s) -> (let s = str_of_coq s in if s = "" then "-" else s) | Some None -> "~" | None -> "oob") in
